@@ -50,7 +50,7 @@ CHECKS = [
         "engine": "vloop",
         "level": "model_checking",
         "technique": "stateless deviation-bounded exploration of the real DoIP transport on an in-memory TCP stream: exhaustive gateway frame scripts x release points x segmentations x schedules, judged by an ideal in-order demultiplexer using frame delivery times",
-        "text": "The real DoIPTransport.connect/write/read run against a scripted gateway: (i) all 256 activation types x protocol versions and all 256 routing activation response codes (usable iff success code, request bytes exact); (ii) every sequence of <= 3 gateway frames (<= 2 with the full 22-letter alphabet incl. reversed-pair messages, 3 with a 9-letter core; thorough: wider) x release after activation / after the k-th write (optionally a given time later: traffic spread over the ack window) x 4 client programs followed by draining reads x segmentations (coalesced, frame-aligned, byte-by-byte, every single split) x every schedule with <= 1 (thorough 2) deviations. (iii) long histories: 17..130 (thorough ..300) frames pending while the client is idle (sleep, then read) or between a request and its ACK, followed by an alive check. Checked per execution: write ok iff matching ACK (TargetUnreachable NACK tolerated) delivered within 2 s else ConnectionError by the deadline; reads return exactly the diagnostic messages for this address pair in stream order, nothing lost or fabricated; every alive check answered with the tester address within 0.5 s in every client phase; only expected frames on the wire.",
+        "text": "The real DoIPTransport.connect/write/read run against a scripted gateway: (i) all 256 activation types x protocol versions and all 256 routing activation response codes (usable iff success code, request bytes exact); (ii) every sequence of <= 3 gateway frames (<= 2 with the full 22-letter alphabet incl. reversed-pair messages, 3 with a 9-letter core; thorough: wider) x release after activation / after the k-th write (optionally a given time later: traffic spread over the ack window) x 4 client programs followed by draining reads x segmentations (coalesced, frame-aligned, byte-by-byte, every single split) x every schedule with <= 1 (thorough 2) deviations. (iii) long histories: 17..130 (thorough ..300) frames pending while the client is idle (sleep, then read) or between a request and its ACK, followed by an alive check. Gateway EOF events (what was sent before the close is still delivered), four-step write/read/write/read histories with skipped frames, a second client task blocked in read() while the first writes (the ack time runs from the moment the message is on the wire). Checked per execution: write ok iff matching ACK (TargetUnreachable NACK tolerated) delivered within 2 s else ConnectionError by the deadline; reads return exactly the diagnostic messages for this address pair in stream order, nothing lost or fabricated; every alive check answered with the tester address within 0.5 s in every client phase; only expected frames on the wire.",
         "note": "Trusted: CPython asyncio streams/primitives, FIFO callback order as reproduced by vloop, the independent frame encoder and "
         "the ideal demultiplexer in vf/checks/demux.py. Not covered: scripts longer than the bound, more deviations than the bound, "
         "two client tasks using one transport concurrently, caller timeouts on write.",
@@ -60,7 +60,7 @@ CHECKS = [
         "engine": "vloop",
         "level": "model_checking",
         "technique": "stateless deviation-bounded exploration of the real HSFZ transport on an in-memory TCP stream: exhaustive gateway frame scripts x release points x segmentations x schedules, judged by an ideal in-order demultiplexer using frame delivery times",
-        "text": "The real HSFZTransport.connect/write/read run against a scripted gateway: every sequence of <= 3 gateway frames (<= 2 with the full 19-letter alphabet incl. reversed-pair data, 3 with an 8-letter core; thorough: wider) x release at connect / after the k-th write (optionally a given time later) x 4 client programs followed by draining reads x segmentations (coalesced, frame-aligned, byte-by-byte, every single split) x ack timeouts 250/1000/2500 ms x every schedule with <= 1 (thorough 2) deviations. Also undefined control words (0x0000, 0x0010, 0x00fe, with/without address pair; a run must be consistent with reading them as error words or with ignoring them) and long histories of 17..130 (thorough ..300) pending frames while the client is idle or between a request and its ack. Checked per execution: write ok iff an ack with the tester's pair echoing the first five bytes is delivered within the ack timeout, else ConnectionError by the deadline and the connection is closed; reads return exactly the data frames ecu->tester in stream order; error control words make the next consumer raise a ConnectionError; an error word makes the client close the connection; alive checks are answered in the same instant with the tester address.",
+        "text": "The real HSFZTransport.connect/write/read run against a scripted gateway: every sequence of <= 3 gateway frames (<= 2 with the full 19-letter alphabet incl. reversed-pair data, 3 with an 8-letter core; thorough: wider) x release at connect / after the k-th write (optionally a given time later) x 4 client programs followed by draining reads x segmentations (coalesced, frame-aligned, byte-by-byte, every single split) x ack timeouts 250/1000/2500 ms x every schedule with <= 1 (thorough 2) deviations. Also undefined control words (0x0000, 0x0010, 0x00fe, with/without address pair; a run must be consistent with reading them as error words or with ignoring them) and long histories of 17..130 (thorough ..300) pending frames while the client is idle or between a request and its ack. Gateway EOF events, four-step write/read/write/read histories with skipped frames. Checked per execution: write ok iff an ack with the tester's pair echoing the first five bytes is delivered within the ack timeout, else ConnectionError by the deadline and the connection is closed; reads return exactly the data frames ecu->tester in stream order; error control words make the next consumer raise a ConnectionError; an error word makes the client close the connection; alive checks are answered in the same instant with the tester address.",
         "note": "Trusted: CPython asyncio streams/primitives, FIFO callback order as reproduced by vloop, the independent frame encoder and "
         "the ideal demultiplexer in vf/checks/demux.py. Not covered: scripts longer than the bound, more deviations than the bound, "
         "two client tasks using one transport concurrently, caller timeouts on write.",
@@ -73,7 +73,7 @@ CHECKS = [
         "6-message (thorough 10) alphabet, plus 50-message bursts, are pushed through TCPLinesTransport / UnixLinesTransport read(), write() and "
         "TCPUDSServerTransport.handle_client (echo server) under every segmentation in {coalesced, per message, byte-by-byte (short streams), every "
         "single split near every message boundary (all offsets on short streams), pairs of splits on short streams}; the explorer fires the 1 s read "
-        "timeout at every point of the partially delivered stream (<= 1 deviation quick, 2 thorough). Also: a slow peer (writes wait in the transport buffer, incl. > 64 KiB with paused writer; close() must flush), two testers connected to one virtual ECU at overlapping times, requests that take differing times inside the ECU. Checked: reads return exactly the sent "
+        "timeout at every point of the partially delivered stream (<= 1 deviation quick, 2 thorough). Also: a slow peer (writes wait in the transport buffer, incl. > 64 KiB with paused writer; close() must flush), two testers connected to one virtual ECU at overlapping times, requests that take differing times inside the ECU. Slow peer with write timeouts (several alignments of the 64 KiB writer pause: the peer must see whole messages only), leftovers of one connection never reach another (reconnect / two transports). Checked: reads return exactly the sent "
         "sequence, one message per read, a timed-out read consumes nothing, end of stream is an empty read / loop exit, wire bytes written are "
         "exactly hex+LF per message.",
         "note": "Trusted: CPython asyncio streams; independent hex-line codec. Not covered: messages longer than 4095 bytes (StreamReader limit 64 KiB "
@@ -89,7 +89,7 @@ CHECKS = [
         "loss (mode C); each scenario with <= 1 (thorough 2) timing deviations. Checked: every pending operation ends with a timeout, a connection error "
         "or an empty read no later than caller timeout + ack time and never hangs (deadlock/horizon detection); no read returns data the peer did not "
         "completely send; with a retry left and a peer that accepts and answers in time - in particular one that is back within the client's first back-off - the request returns the correct reply through a reconnect; "
-        "close() never raises.",
+        "close() never raises. Flaky restarts: the first connection(s) after the outage are accepted and then dropped / reset / ignored (DoIP must ride through within its reconnect window).",
         "note": "Trusted: the stream loss model (eof_received / connection_lost(ConnectionResetError) / silence) and vloop. A read without caller timeout on "
         "a merely silent peer is allowed to wait. Recovery is only demanded when the peer's answer on the new connection reached the client in time.",
     },    {
@@ -126,7 +126,7 @@ CHECKS = [
         "extensions, a reply of every other service, 7F x same/other/unknown SID x 64 (quick) / all 256 (thorough) NRC bytes, negative replies of "
         "length 1,2,4,5}: 0.4 M pairs quick, 1.07 M thorough, classified ACCEPT / MISMATCH / MALFORMED. Plus direct matches() of every typed response "
         "and totality + class-correctness of the NRC-to-exception map over UDSErrorCodes. Histories: one request object (RawRequest.pdu setter, typed attribute "
-        "setters) re-used across all ordered pairs of request states per kind and along a chain through all kinds; verdict must equal a fresh object's.",
+        "setters) re-used across all ordered pairs of request states per kind and along a chain through all kinds; an object whose fields read back as set must serialise accordingly; verdict must equal a fresh object's.",
         "note": "Trusted: vf/ref/iso14229.py echo relation. Points the statement leaves open are admitted as sets (secondary echo differs, undecodable with "
         "differing echo, reserved encodings). UDSClient.request() itself is covered by C04.",
     },
@@ -138,7 +138,7 @@ CHECKS = [
         "text": "Every combination of {plain AsyncScript, Scanner, UDSScanner on an in-memory ECU} x exit kind {return, sys.exit(0|1|3|'text'), ConnectionError, "
         "UDSException, RuntimeError, real SIGINT, db fault} x lifecycle point {pre-hook, db-open, setup before/after base step, main, teardown "
         "before/after base step, db-close, post-hook} x {artifacts, db, lock} on/off x hook variant {disabled, ok, pre fails, post fails(, both)} is run "
-        "for real (3760 runs quick, 5232 thorough incl. double faults, Rerunner round trips and fresh-interpreter conformance). Plus: lock file that cannot be taken (OSError), nested commands (an outer command awaiting an inner entry_point(), like script rerun; per-owner log oracles). Checked against the "
+        "for real (3760 runs quick, 5232 thorough incl. double faults, Rerunner round trips and fresh-interpreter conformance). Plus: lock file that cannot be taken (OSError), nested commands (an outer command awaiting an inner entry_point(), like script rerun; per-owner log oracles). Every await of the database set-up and completion is its own SIGINT / fault point (signatures carry the point). Checked against the "
         "documented mapping 0/n/74/70/130: process status, META.json (code, times, config round trip), run_meta row, complete decodability and exact "
         "record sequence of log.json.zst, flock release, hook environment, and 'a failing hook changes nothing'.",
         "note": "Trusted: CPython's exit rules for asyncio.run (conformance-tested in thorough), in-memory transport/fake ECU, tracing DBHandler subclass. "
@@ -166,7 +166,7 @@ CHECKS = [
         "level x text pairs, are logged through get_logger/add_zst_log_handler/remove_zst_log_handler and read back as .zst, .gz, plain, stdin pipe "
         "and stdin file, with and without the '<prio>' prefix: text, level, tags, timestamp, len, records(p, k, reverse) for all 9 thresholds x k in "
         "-(n+1)..n+1 x both directions, and hr {forward, reverse, --head, --tail} x n in {0,1,len-1,len,len+1,100} x all thresholds must equal the "
-        "reference slices; file variants built from the written lines: every mixed prefix mask, final newline stripped; hr with two / three FILE arguments in all modes (oracle: concatenated single-file outputs); all reader operation sequences up to depth 3 / 4 on logs of 0..N+1 records are explored breadth-first with state "
+        "reference slices; file variants built from the written lines: every mixed prefix mask, final newline stripped; hr with two / three FILE arguments in all modes (oracle: concatenated single-file outputs); zones with daylight saving (both hemispheres, instants around both switches, child interpreters); bursts of 10 000 - 50 000 records with a stalled writer; all reader operation sequences up to depth 3 / 4 on logs of 0..N+1 records are explored breadth-first with state "
         "deduplication (1.2 M evaluations quick, 10 M thorough).",
         "note": "Trusted: python logging/queue, zstandard/gzip, str(PenlogRecord) as rendering of one record, the reference model. Admitted sets: trace in "
         "stacktrace field or appended to text; head/tail count before or after the filter; errors for positive offsets >= len and out-of-range seeks. "
@@ -179,7 +179,7 @@ CHECKS = [
         "text": "Service scan: 7 vendor / response-id services each meet every (availability profile over sessions {1,2,3} x answer behaviour) combination "
         "(98 each: positive on exactly one probe length, 0x31/0x33/0x7E/0x12/0x22, 0x13 only, silent, silent below a probe length, positive on an unprobed length), ISO services 0x22/0x3E/0x31/0x85 every "
         "profile x well-formed behaviour, packed 11 per model (thorough: plus a cross product on two services), x 6 configurations (session lists incl. none "
-        "and an unavailable session, skip maps incl. bare session key, response ids, check-session, reset) plus timed models (S3 session timeout; an ECU that reboots on a probe). ECUs left in a non-default session by a previous tester. Checked: reported services are implemented in "
+        "and an unavailable session, skip maps incl. bare session key, response ids, check-session, reset) plus timed models (S3 session timeout; an ECU that reboots on a probe). ECUs left in a non-default session by a previous tester. ECUs that acknowledge ECUReset at once and perform it 0.3 s later; identifier models with a session that cannot be re-entered (that session's scan is aborted, every other session must still be scanned). Checked: reported services are implemented in "
         "that session; every implemented service that answers a probe meaningfully is reported; every service id 0x00-0xFF (response ids only on request) "
         "is probed while the ECU is in the claimed session; skipped ids are never sent; exit code. Identifier scan: all subsets of a 6-identifier universe "
         "straddling a byte boundary per session x service {0x22, 0x27, 0x2E, 0x31} x start/end windows x skip x check-session x payload: the 'Positive "
@@ -196,7 +196,7 @@ CHECKS = [
         "timeout, connection error, reply of another service, truncated reply}; all sequences of length <= 3 (quick) / 4 (thorough) over a 14-letter "
         "state-relevant alphabet (DSC ok/refused, SecurityAccess seed/key, ECUReset, F186 reads, plain read, suppressed TesterPresent, timeout, mismatch, "
         "malformed, connection error, negative reply) with alternating ANALYZE tags; implicit-logging toggles; a failing run; messages of 4095/4096/5000 bytes; 32 full "
-        "UDSScanner lifecycles (flag on/off before setup x properties x ping x toggles in main); three concurrent users of the ECU object (60 orders); requests ending with uncommon exceptions; a transient 'database is locked' on the k-th row, runs with up to 12 transient errors (every row once / one row repeatedly). Schedules: database "
+        "UDSScanner lifecycles (flag on/off before setup x properties x ping x toggles in main); three concurrent users of the ECU object (60 orders); requests ending with uncommon exceptions; a transient 'database is locked' on the k-th row, runs with up to 12 transient errors (every row once / one row repeatedly). Slow disk (1030 rows pending in the writer queue) with scripted cancels right after the k-th reply; transient errors at COMMIT; lifecycle runs with a stalled writer and a failing run_meta update. Schedules: database "
         "completions early/late (<= 1, thorough 2 deviations) and one cancellation of the run at every iteration boundary, then complete_run_meta + "
         "disconnect. Checked on the database file: one row per request put on the wire while implicit logging is on (also for the exchange in flight when the run is cancelled), in transmission order, exact request "
         "and reply bytes (or NULL), exception column set iff the request raised and naming the class, request_time = transmission time <= response_time, "
@@ -215,7 +215,7 @@ CHECKS = [
         "form, short flag, '=' form, multi-token lists); one or two invalid values per source must be rejected with a message naming the source; every "
         "accepted config is dumped and reloaded through CONFIG_TYPE(**json), through Rerunner.main() via META.json and through a real aiosqlite run_meta "
         "row; --template must list every registry key and every declared key under its section and honour a value set there. Quick: 47 k evaluations, "
-        "thorough: 0.2 M (all value rotations, all spellings of the winning source, all option pairs x source pairs per command).",
+        "thorough: 0.2 M (all value rotations, all spellings of the winning source, all option pairs x source pairs per command). Wrong-typed TOML shapes (tables, arrays, bool/float for int ...) at every file-configurable key must be used or reported, never ignored; stored configs (META.json, run_meta row) hold every field of the config model, agree with each other, and re-create the same values through gallia's own Rerunner in a fresh interpreter.",
         "note": "Trusted: pydantic, argparse, tomllib; pydantic-level default/required/field order; the alphabet tables; declarations are read via AST + "
         "re-evaluation of the Field(...) expressions. Not covered: 'script vecu db' (no acceptable command line), oem (single valid value), dict options, "
         "env spellings of list-of-tuple options, hidden options.",
@@ -229,7 +229,7 @@ CHECKS = [
         "alphabet and length 3 over 9 (thorough 12, length 4 over 8) letters - DSC to offered/unoffered sessions incl. suppressed, SecurityAccess seed / right "
         "key / wrong key (derived from the recorded seed), ECUReset, F186, reads/writes/routines, TesterPresent with and without suppress bit - are "
         "recorded through the real client and DBHandler and replayed from the default state by a real DBUDSServer on the produced file, for four "
-        "database shapes (one run; the history recorded twice; two ECUs selected by ECU name; by string properties; by falsy / null properties). Further: ECU names that collide under SQL LIKE / case folding (the later recording selected), recording faults (reply k arrives after the timeout and is logged as answer to request k+1), ECUReset types 1/4/5. Checked: every reply "
+        "database shapes (one run; the history recorded twice; two ECUs selected by ECU name; by string properties; by falsy / null properties). Further: ECU names that collide under SQL LIKE / case folding (the later recording selected), recording faults (reply k arrives after the timeout and is logged as answer to request k+1), ECUReset types 1/4/5. A recorder wall clock that steps back during the recording; ECU name and properties together selecting the second of two runs of one ECU. Checked: every reply "
         "of the replay equals the recorded reply bytes, silence where none was recorded.",
         "note": "Trusted: sqlite3, FIFO model of aiosqlite, deterministic stand-in for the unseeded seed RNG. The ecu table link is written with plain SQL "
         "(gallia has no writer for it). Not covered: databases recorded from other ECU implementations, histories longer than the bound.",
@@ -242,7 +242,7 @@ CHECKS = [
         "parameter map over the DoIP / HSFZ / ISO-TP / raw-CAN config models (each field absent or a boundary value spelled in decimal, hex, octal, binary, "
         "upper/lower case) x schemes: TargetURI.from_parts -> str -> TargetURI preserves scheme, host, port, parameters and location and Config(**qs_flat) "
         "yields the written numbers; split_host_port/join_host_port are lossless; the HSFZ / ISO-TP / DoIP discoverers' URI construction is exercised with "
-        "boundary arguments incl. sub-second timeouts. The discovery scanners themselves (ISO-TP incl. all 256 extended addresses, HSFZ, DoIP) run against fakes and every URI they emit must parse back to the endpoint that answered and connect with it; what reaches the socket (setsockopt / bind structs, connect arguments) is decoded and compared with the URI's numbers for every transport; prefix-less hex is rejected, digit strings are decimal. Range grammar: all expressions of <= 4 tokens for unravel and <= 3 outer groups for unravel_2d over "
+        "boundary arguments incl. sub-second timeouts. The discovery scanners themselves (ISO-TP incl. all 256 extended addresses, HSFZ, DoIP) run against fakes and every URI they emit must parse back to the endpoint that answered and connect with it; what reaches the socket (setsockopt / bind structs, connect arguments) is decoded and compared with the URI's numbers for every transport; prefix-less hex is rejected, digit strings are decimal. Parsing is history-independent: 22 literals through 27 integer entry points in every ordered pair (A, B, A again) within one process. Range grammar: all expressions of <= 4 tokens for unravel and <= 3 outer groups for unravel_2d over "
         "8 numerals incl. overlaps, single-element, reversed and empty ranges, repeated outer keys and whitespace variants, through the raw functions and "
         "the Ranges / Ranges2D pydantic types: result = sorted union (per outer key; bare key = all). 4.9 M evaluations quick, 86 M thorough.",
         "note": "Trusted: pydantic, urllib, ipaddress, vf/ref/c20_model.py. Hosts are compared as hosts. Reversed ranges, empty parts and undocumented whitespace "
@@ -270,7 +270,7 @@ CHECKS = [
         "and everything gallia's 40+ request classes serialise (6.2 M / 126 M transitions): handle_request never raises, the session stays one the model offers, "
         "every reply passes helpers.parse_pdu both for RawRequest(req) and for parse_dynamic(req); the whole alphabet as one history through the real "
         "TCP/Unix server transport's client callback - callback and StreamReader limit captured from its own run() - is consumed to EOF with replies identical "
-        "to direct handle_request. One deviation per execution: each of the first 24 draws of the per-reply random generators forced to either end of its range.",
+        "to direct handle_request. Idle gaps (9.9 / 10.0 / 11 s, also followed by TesterPresent) before a representative request set in every state; the wire must be exactly hex+LF per reply. One deviation per execution: each of the first 24 draws of the per-reply random generators forced to either end of its range.",
         "note": "Default behaviour switches only. No real socket segmentation here (C19 covers framing). parse_pdu verdicts memoised as a pure function.",
     },
     {
@@ -280,7 +280,7 @@ CHECKS = [
         "technique": "differential transcripts (model dump + exhaustive request battery + histories) across separate interpreter processes with different hash seeds, import orders and clocks, plus graph search on every generated model",
         "text": "Model and answers to an exhaustive request battery per session plus SecurityAccess / reset histories, built through RngVirtualECUConfig -> "
         "RngVirtualECU._server(), for 8 parameter sets x 24/3 (quick) or 256/16 (thorough) seeds, in child interpreters with PYTHONHASHSEED 0/1/4242/random x 2 "
-        "import orders x 2 clock bases (7 environments quick, 16 thorough; 4.9 M / 136 M answer lines compared): transcripts include 'requestSeed, then every handler-answered request' histories and a repeat of the reference environment; same-process restarts (second server from the same config object, setup() twice, fresh parameters) must give the first model and leave the parameters object unchanged; byte-identical except masked SecurityAccess "
+        "import orders x 2 clock bases (7 environments quick, 16 thorough; 4.9 M / 136 M answer lines compared): transcripts include 'requestSeed, then every handler-answered request' histories and a repeat of the reference environment; same-process restarts (second server from the same config object, setup() twice, fresh parameters) must give the first model and leave the parameters object unchanged; different parameter sets sharing seed and probabilities built in one process (both orders); parameter sets passed through gallia's own argument parser as strings; byte-identical except masked SecurityAccess "
         "seeds; mandatory sessions and services present; every offered session reachable from session 1 and able to return to it; setup twice gives the same model.",
         "note": "Children run unmodified gallia except a deterministic clock. Quick-tier batteries cover at most 3 sessions per model.",
     },
